@@ -904,7 +904,7 @@ type c10RaSnap struct {
 	NOpen            int
 	LastH            uint64 // latest rollapp height the hub holds a state update for
 	Frozen           bool   // the canonical client's FrozenHeight is set
-	Rev              uint64 // latest revision number
+	Rev              uint64 // number of hard forks
 }
 
 type c10Snap struct {
@@ -991,7 +991,7 @@ func (h *c10H) snapshot() *c10Snap {
 		r.Tph = ra.GenesisState.TransferProofHeight
 		r.NOpen = h.nOpen[ri]
 		r.LastH, _ = app.RollappKeeper.GetLatestHeight(ctx, ra.RollappId)
-		r.Rev = ra.LatestRevision().Number
+		r.Rev = uint64(len(ra.Revisions) - 1) // number of hard forks (= the latest revision number, except on the two-chain fixture, whose rollapp starts at revision 2: ibctesting headers carry app version 2)
 		if cid, ok := app.LightClientKeeper.GetCanonicalClient(ctx, ra.RollappId); ok {
 			if cs, ok := app.IBCKeeper.ClientKeeper.GetClientState(ctx, cid); ok {
 				if tm, ok := cs.(*ibctm.ClientState); ok {
